@@ -11,10 +11,12 @@ pub mod net;
 pub mod rng;
 pub mod sim;
 pub mod sync;
+pub mod task;
 pub mod thread;
 pub mod time;
 
 pub use sim::{run, RunResult, SimConfig};
+pub use task::shim_tokio;
 
 /// Drop-in replacement for the name `std` inside hooked modules:
 /// `#[cfg(simple_dns_verif)] use simrt::shim_std as std;`
